@@ -3,11 +3,14 @@ import Qfx.Drv.Util
 import Qfx.Drv.Val
 import Qfx.Drv.ValMon
 import Qfx.Drv.Sched
+import Qfx.Drv.Frame
+import Qfx.Drv.FrameMon
 namespace Qfx.Drv
 
 def families : List (String × Family) :=
   [ ("val", valFamily), ("val-mon", valMonFamily)
   , ("sched", schedFamily)
+  , ("frame", frameFamily), ("frame-mon", frameMonFamily)
   ]
 
 end Qfx.Drv
